@@ -67,6 +67,8 @@ var wants = []want{
 	{"pkg/blobserver/stat.go", "selectbefore:Start", "StatBlobsParallelHelper", "stat_helper_checks_before_start"},
 	// diskpacked append: is the index row written (first Set) before the roll-over (first nextPack)?
 	{"pkg/blobserver/diskpacked/diskpacked.go", "callorder:Set<nextPack", "append", "dp_append_index_before_rollover"},
+	// diskpacked ReceiveBlob's duplicate rule: is the size of the pack file compared (>=) with an expression that mentions the blob's size (the END of the indexed extent)?
+	{"pkg/blobserver/diskpacked/diskpacked.go", "gecmp:Size:size", "ReceiveBlob", "dp_dup_checks_extent_end"},
 	// encrypt ReceiveBlob: is the meta blob recorded (first recordMeta, right after it was written) before the index row is set (first Set)?
 	{"pkg/blobserver/encrypt/encrypt.go", "callorder:recordMeta<Set", "ReceiveBlob", "enc_meta_before_index"},
 	// blobpacked: does RemoveBlobs hand the loose store every blob it was given (and not only those without a meta row)?
@@ -530,6 +532,35 @@ func main() {
 			a, okA := first[parts[0]]
 			bpos, okB := first[parts[1]]
 			fmt.Fprintf(&b, "Definition %s : bool := %v.\n", w.coqName, okA && okB && a < bpos)
+		case "gecmp:Size:size":
+			fd, ok := fi.funcs[w.goName]
+			if !ok {
+				fail(fmt.Errorf("func not found"))
+			}
+			found, good := false, false
+			ast.Inspect(fd.Body, func(n ast.Node) bool {
+				be, ok := n.(*ast.BinaryExpr)
+				if !ok || be.Op != token.GEQ {
+					return true
+				}
+				ce, ok := be.X.(*ast.CallExpr)
+				if !ok {
+					return true
+				}
+				se, ok := ce.Fun.(*ast.SelectorExpr)
+				if !ok || se.Sel.Name != "Size" {
+					return true
+				}
+				found = true
+				ast.Inspect(be.Y, func(m ast.Node) bool {
+					if s2, ok := m.(*ast.SelectorExpr); ok && s2.Sel.Name == "size" {
+						good = true
+					}
+					return true
+				})
+				return true
+			})
+			fmt.Fprintf(&b, "Definition %s : bool := %v.\n", w.coqName, found && good)
 		case "selcalls:ByteParts", "selcalls:DirectoryEntries", "selcalls:StaticSetMembers", "selcalls:StaticSetMergeSets", "selcalls:Stat":
 			fd, ok := fi.funcs[w.goName]
 			if !ok {
